@@ -642,6 +642,7 @@ func c8schedules(tier string) []mc.Unit {
 
 func c08units(tier string) []mc.Unit {
 	var us []mc.Unit
+	us = append(us, historyUnit("api-histories", codonMenu()[:8], 3))
 	us = append(us, c8counting(tier)...)
 	us = append(us, c8histories(tier)...)
 	us = append(us, c8schedules(tier)...)
